@@ -22,13 +22,18 @@ import (
 // in or out, and can write again.
 
 type c14Stmt struct {
-	Name  string
-	Kind  string // open | read | write | maint
-	SQL   string
-	Args  []interface{}
-	Apply func(m map[int][2]string) // model effect of a write
-	Read  func(m map[int][2]string) engine.Rows
-	Do    func(c *engine.Client) (engine.Rows, error) // for non-SQL statements
+	// WT, when > 0, is an explicit write_time (seconds after the epoch) set on the connection for this statement
+	WT int
+	// AfterVacuum marks a write whose effect depends on an earlier vacuum having reclaimed a delete marker: when
+	// that vacuum reported an error the write's effect is optional in the model (the marker may still win)
+	AfterVacuum bool
+	Name        string
+	Kind        string // open | read | write | maint
+	SQL         string
+	Args        []interface{}
+	Apply       func(m map[int][2]string) // model effect of a write
+	Read        func(m map[int][2]string) engine.Rows
+	Do          func(c *engine.Client) (engine.Rows, error) // for non-SQL statements
 }
 
 type c14Scenario struct {
@@ -85,6 +90,23 @@ func c14Scenarios() []c14Scenario {
 				m[20] = [2]string{"b2", "c2"}
 				b.Close()
 			}
+			return m
+		}
+	}
+	// plain base without any delete marker: a later vacuum + replay reproduces exactly the earlier tree
+	buildPlain := func(epn int) func(w *engine.World) map[int][2]string {
+		return func(w *engine.World) map[int][2]string {
+			m := map[int][2]string{}
+			a := w.NewClient("a")
+			must(a.Create(engine.TableOpts{EPN: epn}))
+			must(a.SetWriteTime(engine.T(100)))
+			must(a.Exec("begin"))
+			for k := 1; k <= 8; k++ {
+				must(a.Exec("insert into {T} values(?,?,?)", k, "b", "c"))
+				m[k] = [2]string{"b", "c"}
+			}
+			must(a.Exec("commit"))
+			a.Close()
 			return m
 		}
 	}
@@ -153,12 +175,32 @@ func c14Scenarios() []c14Scenario {
 		}
 		return nil, err
 	}}
+	insAt := func(k, wt int, afterVacuum bool) c14Stmt {
+		x := ins(k)
+		x.WT, x.AfterVacuum = wt, afterVacuum
+		x.Name = fmt.Sprintf("INSERT %d at write_time %d", k, wt)
+		return x
+	}
+	delAt := func(k, wt int) c14Stmt {
+		return c14Stmt{WT: wt, Name: fmt.Sprintf("DELETE %d at write_time %d", k, wt), Kind: "write", SQL: fmt.Sprintf("delete from {T} where a=%d", k), Apply: func(m map[int][2]string) { delete(m, k) }}
+	}
+	vacuumAll := c14Stmt{Name: "s3db_vacuum (cutoff after everything)", Kind: "maint", Do: func(c *engine.Client) (engine.Rows, error) {
+		verr, err := c.Vacuum(engine.T(8000))
+		if err == nil && verr != "" {
+			err = fmt.Errorf("vacuum_error: %s", verr)
+		}
+		return nil, err
+	}}
 	return []c14Scenario{
 		{Name: "multi-level, two heads: open, INSERT, UPDATE, DELETE, SELECT range, SELECT desc", EPN: 2, Build: build(2, true), Stmts: []c14Stmt{open, ins(50), upd, del, selRange, selDesc, selAllS}},
 		{Name: "single node: open, transaction, SELECT", EPN: 4096, Build: build(4096, false), Stmts: []c14Stmt{open, tx, selAllS, ins(70), selAllS}},
 		{Name: "multi-level with node cache: open, INSERT, SELECT, UPDATE", EPN: 2, Cache: 100, Build: build(2, false), Stmts: []c14Stmt{open, ins(50), selAllS, upd, selRange}},
 		{Name: "refresh with two heads, version, changes", EPN: 4096, Build: build(4096, true), Stmts: []c14Stmt{open, ins(50), refresh, version, changes, selAllS}},
 		{Name: "vacuum, then SELECT and INSERT", EPN: 2, Build: build(2, true), Stmts: []c14Stmt{open, vacuum, selAllS, ins(50), selDesc}},
+		// returns the table to an earlier content after a vacuum removed that content's objects: the replayed
+		// INSERT produces exactly the nodes the vacuum deleted
+		{Name: "node cache: INSERT, DELETE, vacuum everything, replay of the INSERT at its original write_time", EPN: 2, Cache: 100, Build: buildPlain(2), Stmts: []c14Stmt{open, insAt(50, 200, false), delAt(50, 210), vacuumAll, insAt(50, 200, true)}},
+		{Name: "node cache, single node: INSERT, DELETE, vacuum everything, replay of the INSERT", EPN: 4096, Cache: 100, Build: buildPlain(4096), Stmts: []c14Stmt{open, insAt(50, 200, false), delAt(50, 210), vacuumAll, insAt(50, 200, true)}},
 	}
 }
 
@@ -310,6 +352,12 @@ func c14Worker(raw json.RawMessage) *engine.Result {
 	var errored []c14Stmt
 	refreshed := false
 	opened := false
+	vacuumErrored := false
+	usesWT, hasVacuum := false, false
+	for _, st := range sc.Stmts {
+		usesWT = usesWT || st.WT > 0
+		hasVacuum = hasVacuum || strings.Contains(st.Name, "vacuum")
+	}
 	clockT := 1000
 	for _, st := range sc.Stmts {
 		curStmt = st.Name
@@ -317,6 +365,14 @@ func c14Worker(raw json.RawMessage) *engine.Result {
 		w.SetClock(engine.T(clockT))
 		var rows engine.Rows
 		var err error
+		if opened && usesWT {
+			// explicit row times for this scenario; setting write_time issues no request
+			if st.WT > 0 {
+				cl.SetWriteTime(engine.T(st.WT))
+			} else {
+				cl.Exec("update s3db_conn set write_time=NULL")
+			}
+		}
 		switch {
 		case st.Kind == "open":
 			for try := 0; try < 3 && !opened; try++ {
@@ -351,6 +407,15 @@ func c14Worker(raw json.RawMessage) *engine.Result {
 			if st.Kind == "write" {
 				errored = append(errored, st)
 			}
+			if strings.Contains(st.Name, "vacuum") {
+				vacuumErrored = true
+			}
+			continue
+		}
+		if st.AfterVacuum && vacuumErrored {
+			// acknowledged, but whether it is visible depends on how far the failed vacuum got
+			res.Outcomes = append(res.Outcomes, "ok:write-after-failed-vacuum")
+			errored = append(errored, st)
 			continue
 		}
 		res.Outcomes = append(res.Outcomes, "ok:"+st.Kind)
@@ -452,6 +517,29 @@ func c14Worker(raw json.RawMessage) *engine.Result {
 	}
 	if len(w.B.Broken) > 0 {
 		viol("store-invariant", "%v", w.B.Broken)
+	}
+	if !hasVacuum {
+		// no vacuum ran: every version that a version object still present names as its parent must itself
+		// still exist (under root/current or root/merged), whichever request failed
+		objs := w.B.Snapshot()
+		lay := engine.TableLayout("p")
+		cur, mer := engine.Versions(objs, lay)
+		all := append(append([]string{}, cur...), mer...)
+		have := map[string]bool{}
+		for _, n := range all {
+			have[n] = true
+		}
+		for _, n := range all {
+			vd, err := engine.WalkVersion(objs, lay, n)
+			if err != nil {
+				continue
+			}
+			for _, par := range vd.Root.MergeSources {
+				if !have[par] {
+					viol("parent-version-object-lost", "version %s names %s as its parent, but that version object is neither under root/current nor under root/merged although no vacuum ran", n, par)
+				}
+			}
+		}
 	}
 	sort.Strings(idents)
 	res.Data = engine.J(map[string]interface{}{"scenario": sc.Name, "requests": reqs, "idents": idents, "fault": fmt.Sprintf("#%d %s %s/%s during %s", c.K, fired, c.Kind, c.Mode, firedStmt), "errored_writes": len(errored), "final_rows": len(frows)})
